@@ -9,7 +9,7 @@
 From Coq Require Import Reals List ZArith.
 Import ListNotations.
 From Coquelicot Require Import Coquelicot.
-From MG Require Import Model.RealOps Gen.VjpScalar Proofs.VjpP1 Proofs.VjpP2 Base.EngCore Model.OpsExact Proofs.OpsExactP Model.VecOps Proofs.VecP Proofs.VecP2.
+From MG Require Import Model.RealOps Gen.VjpScalar Proofs.VjpP1 Proofs.VjpP2 Base.EngCore Model.OpsExact Proofs.OpsExactP Model.VecOps Proofs.VecP Proofs.VecP2 Proofs.VecP3.
 Open Scope R_scope.
 
 Theorem C02_Add_vjp_0 : forall g a b, is_derive (fun x => g * Add_fwd x b) a (Add_bwd_0 g a b).
@@ -342,6 +342,23 @@ Print Assumptions C02_lane_norm2_vjp.
 Theorem C02_lane_normp_vjp : forall p g l i, (i < length l)%nat -> p <> 0 -> nth i l 0 <> 0 -> is_derive (fun t => g * vnormp p (upd l i t)) (nth i l 0) (normp_bwd p g l i).
 Proof. exact normp_vjp. Qed.
 Print Assumptions C02_lane_normp_vjp.
+
+(* losses: multiclass hinge (away from the kinks), margin ranking, focal loss (0 < p < 1, any alpha and gamma) *)
+Theorem C02_loss_hinge_vjp : forall g c h y l i, (i < length l)%nat -> (y < length l)%nat -> (forall j, (j < length l)%nat -> j <> y -> nth j l 0 - nth y l 0 + h <> 0) -> is_derive (fun t => g * vhinge c h y (upd l i t)) (nth i l 0) (hinge_bwd g c h y l i).
+Proof. exact hinge_vjp. Qed.
+Print Assumptions C02_loss_hinge_vjp.
+
+Theorem C02_loss_margin_a_vjp : forall g c m y a b, m - y * (a - b) <> 0 -> is_derive (fun t => g * vmargin c m y t b) a (margin_bwd_a g c m y a b).
+Proof. exact margin_a_vjp. Qed.
+Print Assumptions C02_loss_margin_a_vjp.
+
+Theorem C02_loss_margin_b_vjp : forall g c m y a b, m - y * (a - b) <> 0 -> is_derive (fun t => g * vmargin c m y a t) b (margin_bwd_b g c m y a b).
+Proof. exact margin_b_vjp. Qed.
+Print Assumptions C02_loss_margin_b_vjp.
+
+Theorem C02_loss_focal_vjp : forall g alpha gamma p, 0 < p -> p < 1 -> is_derive (fun t => g * vfocal alpha gamma t) p (focal_bwd g alpha gamma p).
+Proof. exact focal_vjp. Qed.
+Print Assumptions C02_loss_focal_vjp.
 
 (* structural operations: the registry theorem (shared with C01) *)
 Theorem C02_registry_ops_exact :
